@@ -495,7 +495,9 @@ class IntDomain(TagDomain):
   def method_call(self, recv, name, args, kwargs, node, st, eng):
     if name == 'astype':
       a = args[0] if args else kwargs.get('dtype')
-      if a is not None and a.origin == ('dtype-of', 'mayint'):
+      if a is not None and a.origin == ('dtype-of', 'mayint') and \
+              not isinstance(getattr(node.func, 'value', None),
+                             (ast.Compare, ast.BoolOp)):
         self.problems.append(('cast to the dtype of the user\'s data '
                               '(.astype(<data>.dtype))', self.site(node),
                               self.cur()))
